@@ -415,6 +415,7 @@ zgsisx(superlu_options_t *options, SuperMatrix *A, int *perm_c, int *perm_r,
     SuperMatrix *AA;/* A in SLU_NC format used by the factorization routine.*/
     SuperMatrix AC; /* Matrix postmultiplied by Pc */
     int       colequ, equil, nofact, notran, rowequ, permc_spec, mc64;
+    int       conj_nr = 0; /* row storage with Trans = CONJ: solve with conj(B), conj(X) */
     trans_t   trant;
     char      norm[1];
     int_t     i, j;
@@ -529,6 +530,9 @@ zgsisx(superlu_options_t *options, SuperMatrix *A, int *perm_c, int *perm_r,
 	    trant = TRANS;
 	    notran = 0;
 	} else {
+	    /* A^T x = b is AA x = b; A^H x = b is conj(AA) x = b, i.e.
+	       AA conj(x) = conj(b). */
+	    conj_nr = (options->Trans == CONJ);
 	    trant = NOTRANS;
 	    notran = 1;
 	}
@@ -700,6 +704,12 @@ zgsisx(superlu_options_t *options, SuperMatrix *A, int *perm_c, int *perm_r,
 		}
 	}
 
+        if ( conj_nr ) { /* solve for conj(X) with conj(B) */
+            for (j = 0; j < nrhs; ++j)
+                for (i = 0; i < A->nrow; ++i)
+                    Bmat[i + j*ldb].i = -Bmat[i + j*ldb].i;
+        }
+
 	/* Compute the solution matrix X. */
 	for (j = 0; j < nrhs; j++)  /* Save a copy of the right hand sides */
 	    for (i = 0; i < B->nrow; i++)
@@ -708,6 +718,14 @@ zgsisx(superlu_options_t *options, SuperMatrix *A, int *perm_c, int *perm_r,
 	t0 = SuperLU_timer_();
 	zgstrs (trant, L, U, perm_c, perm_r, X, stat, &info1);
 	utime[SOLVE] = SuperLU_timer_() - t0;
+
+        if ( conj_nr ) { /* back to X and the caller's B */
+            for (j = 0; j < nrhs; ++j)
+                for (i = 0; i < A->nrow; ++i) {
+                    Xmat[i + j*ldx].i = -Xmat[i + j*ldx].i;
+                    Bmat[i + j*ldb].i = -Bmat[i + j*ldb].i;
+                }
+        }
 
 	/* Transform the solution matrix X to a solution of the original
 	   system. */
